@@ -80,7 +80,17 @@ fn determinism_case(n: usize, format: Format, game: truth::Game, mode: &str, map
 
 /// sources with >= 2 competing entries in hash-ordered bookkeeping
 fn competing_source(rng: &mut Rng) -> gensrc::GenSource {
-    match rng.below(4) {
+    match rng.below(5) {
+        4 => {
+            // several bad signatures / unknown enums in a mapfile: several diagnostics from one table walk
+            let game = truth::Game::Th12;
+            let mut map = String::from("!anmmap\n!ins_signatures\n");
+            let n = 2 + rng.below(5);
+            for i in 0..n { map.push_str(&format!("{} S(enum=\"{}{}\")\n", 900 + i, rng.pick(&["Foo", "Bar", "Baz", "Qux"]), i)); }
+            map.push_str("!enum(name=\"Colour\")\n0 Red\n1 Green\n!enum(name=\"Colours\")\n0 Cyan\n!enum(name=\"Coloru\")\n0 Pink\n");
+            let text = "entry { path: \"a.png\", has_data: false, img_width: 16, img_height: 16, img_format: 3, sprites: {} }\nscript s0 { ins_3(Colour.Red); }\n".to_string();
+            gensrc::GenSource { format: Format::Anm, game, text, maps: vec![map] }
+        },
         0 => {
             // old ECL sub: several registers each used under two names (alias from a mapfile + raw syntax)
             let game = *rng.pick(&[truth::Game::Th06, truth::Game::Th07, truth::Game::Th08]);
